@@ -156,7 +156,10 @@ pub struct World {
     pub panics: Vec<(String, PanicInfo)>,
 }
 
-pub const UNKNOWN_ISSUER_KEY: &str = "ecD";
+/// Key the directory answers with for an issuer it does not know. (ecB also serves as an issuer
+/// key in some runs; acceptance under it is then judged like any other key: the token must have
+/// been signed by it.)
+pub const UNKNOWN_ISSUER_KEY: &str = "ecB";
 
 pub fn strat_to_lib(s: &Strat) -> ClaimsForSelectiveDisclosureStrategy<'_> {
     match s {
